@@ -40,6 +40,8 @@ def cases(tier, seed):
         for m in (('smape', 'rpd') if q else MET):
             for pos in ([[3]] if q else [[1], [2], [3]]):
                 out.append(dict(layer='L0', nra_at_decide=False, fn='rdp', curve='dip5', pos=pos, distance=d, metric=m, t_hint='1/5'))
+    for d in DIST:
+        out.append(dict(layer='L0', nra_at_decide=False, fn='rdp', curve='chord4', pos=[], distance=d, metric='smape', t_hint='1/10'))
     for m in MET:
         for n in (3, 4):
             out.append(dict(layer='L0', fn='dispatch', n=n, metric=m))
